@@ -331,6 +331,12 @@ func (fr *Frame) loopHeader(b *ssa.BasicBlock, li *loopInfo, phiEntry map[*ssa.P
 	x := fr.x
 	invs := fr.invariantsFor(li)
 	entryHeap := fr.cur
+	// an address that escapes anywhere in the loop body has escaped in every later iteration
+	for blk := range li.body {
+		for _, in := range blk.Instrs {
+			fr.noteEscapes(in)
+		}
+	}
 	// 1. invariants hold on entry
 	if !x.discover {
 		for i, inv := range invs {
@@ -423,6 +429,12 @@ func addrRoot(v ssa.Value) ssa.Value {
 		case *ssa.FieldAddr:
 			v = a.X
 		case *ssa.IndexAddr:
+			v = a.X
+		case *ssa.Slice:
+			// a sub-slice shares its operand's backing array
+			if _, isPtr := a.X.Type().Underlying().(*types.Pointer); isPtr {
+				return v
+			}
 			v = a.X
 		default:
 			return v
@@ -530,8 +542,49 @@ func (fr *Frame) invariantsFor(li *loopInfo) []*Clause {
 // ---------------------------------------------------------------------------
 // instructions
 
+// noteEscapes marks local allocations whose address is handed to something that may keep or
+// use it behind our back (a call that is not known to modify nothing, a closure, an interface,
+// a store into memory, a slice, a return). Until then a local cell is out of reach of callees.
+func (fr *Frame) noteEscapes(in ssa.Instruction) {
+	mark := func(v ssa.Value) {
+		if a, ok := addrRoot(v).(*ssa.Alloc); ok {
+			if fr.escaped == nil {
+				fr.escaped = map[*ssa.Alloc]bool{}
+			}
+			fr.escaped[a] = true
+		}
+	}
+	switch i := in.(type) {
+	case *ssa.UnOp, *ssa.FieldAddr, *ssa.IndexAddr, *ssa.DebugRef, *ssa.Alloc:
+		return
+	case *ssa.Store:
+		mark(i.Val)
+		return
+	case *ssa.Call:
+		cc := i.Common()
+		if f := cc.StaticCallee(); f != nil && !cc.IsInvoke() {
+			if c := fr.x.w.contracts[funcKey(f)]; c != nil && !c.Inline && c.HasModifies && !c.ModifiesAll && len(c.Modifies) == 0 {
+				return // promises to modify nothing: it cannot retain the pointer either
+			}
+		}
+		for _, a := range cc.Args {
+			mark(a)
+		}
+		if !cc.IsInvoke() {
+			mark(cc.Value)
+		}
+		return
+	}
+	for _, op := range in.Operands(nil) {
+		if *op != nil {
+			mark(*op)
+		}
+	}
+}
+
 func (fr *Frame) instr(in ssa.Instruction) {
 	x := fr.x
+	fr.noteEscapes(in)
 	switch i := in.(type) {
 	case *ssa.DebugRef:
 		return
@@ -553,9 +606,7 @@ func (fr *Frame) instr(in ssa.Instruction) {
 		loc := &Loc{Kind: LRef, Base: ref, Root: el, T: el}
 		fr.writeLoc(loc, zeroVal(el))
 		fr.vals[i] = &SVal{T: i.Type(), Term: ref}
-		if !i.Heap {
-			fr.locals = append(fr.locals, localAlloc{ref, el})
-		}
+		fr.locals = append(fr.locals, localAlloc{ref, el, i})
 	case *ssa.BinOp:
 		fr.vals[i] = fr.binop(i.Op, fr.val(i.X), fr.val(i.Y), i.Type(), i)
 	case *ssa.UnOp:
